@@ -29,6 +29,13 @@ def active_derived(f: FuncInfo, e: ast.expr, depth: int = 0) -> bool:
     txt = norm(e)
     if any(txt.startswith(s) or txt == s.rstrip("(") for s in ACTIVE_SOURCES) or "self.features" in txt and ".all_features" not in txt:
         return True
+    # a sub-list of active keys is still a list of active keys: [k for k in <active> if ...], list(..), sorted(..)
+    if isinstance(e, (ast.ListComp, ast.SetComp, ast.GeneratorExp)) and len(e.generators) == 1 and depth < 4:
+        g = e.generators[0]
+        if isinstance(g.target, ast.Name) and norm(e.elt) == g.target.id and active_derived(f, g.iter, depth + 1):
+            return True
+    if isinstance(e, ast.Call) and call_name(e) in ("list", "sorted", "set", "tuple") and len(e.args) == 1 and depth < 4 and active_derived(f, e.args[0], depth + 1):
+        return True
     if isinstance(e, ast.Name) and depth < 4:
         defs = [s for s in ast.walk(f.node) if isinstance(s, ast.Assign) and any(isinstance(t, ast.Name) and t.id == e.id for t in s.targets)]
         if defs:
@@ -237,3 +244,82 @@ def run(P: Program, R: Report, tier: str) -> None:
     # ---- R10.7
     for a in P.annotators():
         update_guards(P, R, a, "R10.7")
+        from .annot import compute_is_memoryless
+
+        compute_is_memoryless(P, R, a, "R10.8")
+
+    flag_frame(P, R, "R10.9")
+
+def flag_frame(P: Program, R: Report, rule: str) -> None:
+    """activate_features(keys) / deactivate_features(keys) change the inclusion flag of the given keys ONLY: every
+    other feature keeps the flag it had (a feature switched off earlier, or never switched on, stays off)."""
+    base = P.class_named("GraphAnnotator")
+    if base is None:
+        raise AnalysisError("GraphAnnotator not found")
+    classes = [base] + [c for c in P.subclasses("GraphAnnotator")]
+    n = 0
+    for c in classes:
+        for mname, const in (("activate_features", True), ("deactivate_features", False)):
+            m = c.methods.get(mname)
+            if m is None:
+                continue
+            kparam = m.params[1] if len(m.params) > 1 else "keys"
+            # names that denote (a sub-collection of) the requested keys
+            req = {kparam}
+            for s in ast.walk(m.node):
+                if isinstance(s, ast.Assign) and len(s.targets) == 1 and isinstance(s.targets[0], ast.Name):
+                    v = s.value
+                    if isinstance(v, (ast.ListComp, ast.SetComp)) and any(norm(g.iter) in req for g in v.generators) and norm(v.elt) == norm(v.generators[0].target):
+                        req.add(s.targets[0].id)
+                    if isinstance(v, ast.Call) and call_name(v) in ("set", "list", "sorted", "tuple", "frozenset") and v.args and norm(v.args[0]) in req:
+                        req.add(s.targets[0].id)
+            table = None
+            for s in ast.walk(m.node):
+                if isinstance(s, ast.Assign):
+                    for t in s.targets:
+                        # form A: item write
+                        if isinstance(t, ast.Subscript) and isinstance(t.value, ast.Attribute) and norm(t.value).startswith("self.") and isinstance(s.value, ast.Tuple) and len(s.value.elts) == 2:
+                            table = norm(t.value)
+                            n += 1
+                            k = norm(t.slice)
+                            loops = [(fld, nd) for fld, nd in enclosing(m, s) if isinstance(nd, ast.For) and isinstance(nd.target, ast.Name) and nd.target.id == k]
+                            over_req = any(norm(nd.iter) in req for _, nd in loops)
+                            guard_in = any(isinstance(nd, ast.If) and fld == "body" and any(
+                                isinstance(x, ast.Compare) and len(x.ops) == 1 and isinstance(x.ops[0], ast.In) and norm(x.left) == k and norm(x.comparators[0]) in req for x in ast.walk(nd.test))
+                                for fld, nd in enclosing(m, s))
+                            if over_req or guard_in:
+                                R.ok(rule, m, s, f"{m.short}: the flag is written for requested keys only", via="loop-shape")
+                            elif loops:
+                                R.fail(rule, m, s, f"{m.short}: the flag is written for requested keys only",
+                                       f"`{norm(s)[:70]}` runs for every `{k}` in `{norm(loops[0][1].iter)[:40]}` without a test `{k} in {kparam}`: features outside the request change their flag")
+                            else:
+                                R.undecided(rule, m, s, f"{m.short}: the flag is written for requested keys only", f"binding of `{k}` not recognised")
+                        # form B: the table is rebuilt
+                        if isinstance(t, ast.Attribute) and norm(t).startswith("self.") and isinstance(s.value, ast.DictComp) and isinstance(s.value.value, ast.Tuple) and len(s.value.value.elts) == 2:
+                            n += 1
+                            comp = s.value
+                            g = comp.generators[0]
+                            flag = comp.value.elts[1]
+                            old = None
+                            if isinstance(g.target, ast.Tuple) and len(g.target.elts) == 2 and isinstance(g.target.elts[1], ast.Tuple) and len(g.target.elts[1].elts) == 2:
+                                old = norm(g.target.elts[1].elts[1])
+                            kvar = norm(comp.key)
+                            names = {x.id for x in ast.walk(flag) if isinstance(x, ast.Name)}
+                            over_all = norm(t) in norm(g.iter)
+                            if not over_all:
+                                R.undecided(rule, m, s, f"{m.short}: rebuilt flag table keeps the other features' flags", "source of the rebuilt table not recognised")
+                            elif old is None or old not in names:
+                                R.fail(rule, m, s, f"{m.short}: rebuilt flag table keeps the other features' flags",
+                                       f"the new flag `{norm(flag)[:50]}` does not use the previous flag: every feature outside `{kparam}` becomes "
+                                       f"{'inactive' if const else 'ACTIVE'}, whatever it was (disabled or never-enabled features are then recomputed and written by edits)")
+                            else:
+                                ftxt = norm(flag).replace(" ", "")
+                                good = {
+                                    True: {f"{old}or{kvar}in{kparam}", f"{kvar}in{kparam}or{old}", f"Trueif{kvar}in{kparam}else{old}"},
+                                    False: {f"{old}and{kvar}notin{kparam}", f"{kvar}notin{kparam}and{old}", f"Falseif{kvar}in{kparam}else{old}"},
+                                }[const]
+                                if ftxt in good:
+                                    R.ok(rule, m, s, f"{m.short}: rebuilt flag table keeps the other features' flags", via="expr-shape")
+                                else:
+                                    R.undecided(rule, m, s, f"{m.short}: rebuilt flag table keeps the other features' flags", f"flag expression `{norm(flag)[:60]}` not recognised")
+    R.floor(rule, "flag writes in activate / deactivate", n, 2)
